@@ -238,7 +238,7 @@ Section CNP.
       injection H as <- <-. apply inv_enc_same; auto.
     - (* the carrier starts refusing writes *)
       injection H as <- <-. destruct (e_fail (c_enc s)) eqn:F; [exact I|].
-      apply inv_enc_same; auto. intros _. discriminate.
+      apply inv_enc_same; auto; try (intros _; discriminate).
   Qed.
 
   Theorem run_inv evs : forall s s' rs,
